@@ -60,7 +60,8 @@ def drive(work, cfgs, seed, depth, limit, nrandom, mutant=None):
 
 
 def consts_of(c):
-    return dict(Kind="periodic" if c["kind"] in ("periodic", "custom_gen", "custom_future") else "iterable", NI=c.get("ni", 1000), Poll=int(c.get("poll", 0)),
+    kind = "periodic" if c["kind"] in ("periodic", "custom_gen", "custom_future") else "polling" if c["kind"] == "kafka_poll" else "iterable"
+    return dict(Kind=kind, NI=c.get("ni", 1000), Poll=int(c.get("poll", 0)), DoWhile=False,
                 MaxLoops=6, MaxTime=100000, MaxCalls=1000, Guarded=True, SyncCons=c.get("cons", "future") == "sync")
 
 
@@ -70,19 +71,29 @@ def run(tier, seed, mutant=None, only_validate=False):
     res = core.EngineResult("asource")
     try:
         if not only_validate:
-            for kind, ni, mt in (("periodic", 4, 6), ("iterable", 3, 0)):
+            for kind, ni, mt in (("periodic", 4, 6), ("iterable", 3, 0), ("polling", 3, 4)):
                 for sync in (False, True):
                     r, rec = amod.mc(res, work, "SourceLoop", "%s_sync%d" % (kind, sync),
                                      dict(Kind=kind, NI=ni, Poll=2, MaxLoops=3, MaxTime=mt, MaxCalls=5 if tier == "quick" else 6,
-                                          Guarded=True, SyncCons=sync),
+                                          Guarded=True, SyncCons=sync, DoWhile=False),
                                      INVS, ["StartIdempotent", "StopIdempotent"], workers=16)
                     amod.spec_violation(res, r, rec, {}, "C18", "source")
             r, rec = amod.mc(res, work, "SourceLoop", "unguarded", dict(Kind="periodic", NI=3, Poll=2, MaxLoops=3, MaxTime=4,
-                             MaxCalls=4, Guarded=False, SyncCons=False), ["AtMostOneActive"])
+                             MaxCalls=4, Guarded=False, SyncCons=False, DoWhile=False), ["AtMostOneActive"])
             rec["expected_violation"] = "AtMostOneActive"
             rec["ok"] = r.violated == "AtMostOneActive"
             if r.violated != "AtMostOneActive":
                 raise core.MachineryError("sensitivity run: unguarded start not refuted by AtMostOneActive")
+            # from_kafka as it was in the pinned tree: a start() of its own without the guard (F26a), and a loop that tests
+            # `stopped` only after a poll (F26b)
+            for name, consts, inv in (("polling_unguarded", dict(Guarded=False, DoWhile=False), "AtMostOneActive"),
+                                      ("polling_dowhile", dict(Guarded=True, DoWhile=True), "NoCycleWhileStopped")):
+                r, rec = amod.mc(res, work, "SourceLoop", name, dict(dict(Kind="polling", NI=3, Poll=2, MaxLoops=3, MaxTime=4, MaxCalls=4,
+                                 SyncCons=False), **consts), [inv])
+                rec["expected_violation"] = inv
+                rec["ok"] = r.violated == inv
+                if r.violated != inv:
+                    raise core.MachineryError("sensitivity run: pre-fix from_kafka (%s) not refuted by %s" % (name, inv))
         cfgs = [{"kind": "periodic", "poll": 2, "cons": "future"}, {"kind": "periodic", "poll": 2, "cons": "sync"},
                 {"kind": "periodic", "poll": 3, "cons": "coro"},
                 {"kind": "iterable", "ni": 4, "cons": "future"}, {"kind": "iterable", "ni": 4, "cons": "sync"},
@@ -90,7 +101,9 @@ def run(tier, seed, mutant=None, only_validate=False):
                 {"kind": "iterable", "ni": 4, "cons": "sync", "stop_at": 2}, {"kind": "iterable", "ni": 4, "cons": "future", "stop_at": 1},
                 {"kind": "periodic", "poll": 2, "cons": "sync", "stop_at": 2},
                 # user-defined sources whose run() is a tornado coroutine / returns a Future
-                {"kind": "custom_gen", "poll": 2, "cons": "future"}, {"kind": "custom_future", "poll": 2, "cons": "sync"}]
+                {"kind": "custom_gen", "poll": 2, "cons": "future"}, {"kind": "custom_future", "poll": 2, "cons": "sync"},
+                # from_kafka over the in-memory client: a source with a polling loop and a start() of its own
+                {"kind": "kafka_poll", "poll": 2, "ni": 4, "pre": 2, "cons": "future"}, {"kind": "kafka_poll", "poll": 2, "ni": 4, "pre": 1, "cons": "sync"}]
         runs = drive(work, cfgs, seed, 7 if tier == "quick" else 9, 250 if tier == "quick" else 3000,
                      150 if tier == "quick" else 1500, mutant=mutant)
         # reuse the generic grouping / validation of amod.node_engine by handing it pre-recorded runs
